@@ -1,7 +1,7 @@
 (* RunC01u.v — case-file helpers of the C01 check for the unified block language (Proofs/C01u.v, Proofs/C01uReal.v): the
    comparison "parse_script (printed text) = ucompile_real (tree)" and the structured reading [uexec] run inside Coq against what
    the implementation did on the printed text (used only by generated case files).  No proofs here. *)
-From BS Require Import Model.Base Model.Num Model.Arith Model.ExprParser Model.Script Model.Interp Model.LibCore Model.LibAll Model.Run
+From BS Require Import Model.Base Model.Num Model.Arith Model.ExprParser Model.Script Model.Interp Model.LibCore Model.LibAll Model.LibPartial Model.Run
                        Model.RunC01 Proofs.C01 Proofs.C01b Proofs.C01for Proofs.C01forReal Proofs.C01u Proofs.C01uReal.
 
 (* a for loop of a SOURCE tree: placeholder names for the two hidden temporaries, the index name ([] = none) *)
@@ -21,7 +21,7 @@ Definition check_struct_n (fuel : nat) (s : unistmt) (w : world) (xp : expected)
   let w0 := upd_count (upd_globals w (inject_library (w_globals w))) 0 in
   let t := fst (uname 0 s) in
   if negb (uwf false t && uguard t) then 0%N else
-  match uexec cfg (libfull cfg) no_url no_lint UHost fuel t (None, w0) with
+  match uexec cfg (libfull2 cfg) no_url no_lint UHost fuel t (None, w0) with
   | None => 3%N
   | Some (o, (_, w1)) =>
     let out := match o with SNormal => Some (OVal VNull) | SStop r => Some r | _ => None end in
